@@ -266,6 +266,11 @@ class GridInterp:
                 env[s.targets[0].id] = self.ev(s.value, env)
             elif isinstance(s, ast.Assign) and len(s.targets) == 1 and isinstance(s.targets[0], ast.Tuple) and all(isinstance(t_, ast.Name) for t_ in s.targets[0].elts):
                 v_ = self.ev(s.value, env)
+                if hasattr(v_, '__next__') or isinstance(v_, (map, zip)):
+                    try:
+                        v_ = list(v_)       # a generator of pure string / number expressions
+                    except Exception as ex_:
+                        raise Unrecognised('cannot evaluate %s: %r' % (unparse(s.value), ex_))
                 if not (isinstance(v_, (list, tuple)) and len(v_) == len(s.targets[0].elts)):
                     raise Unrecognised('unpacking %s' % unparse(s))
                 for t_, x_ in zip(s.targets[0].elts, v_):
@@ -369,7 +374,8 @@ def d2_grid(ctx, m, fold, g, g5):
         got = out[1]
         ctx.check(rule, key, isinstance(got, sp.MatrixBase) and got == w, '%s evaluates to the structure its name denotes' % tag,
                   'tag %s returns %s, its name denotes %s' % (tag, got.tolist() if isinstance(got, sp.MatrixBase) else got, w.tolist()), m.loc(f))
-    unknown = ['', 'Foo', 'GammaW', 'SigmaXX', 'gamma5', 'identity', 'Gamma5GammaX', 'SigmaTX']
+    unknown = ['', 'Foo', 'GammaW', 'SigmaXX', 'gamma5', 'identity', 'Gamma5GammaX', 'SigmaTX', 'SigmaWX', 'SigmatY', 'Sigma?T', 'Sigma?Z', 'SigmaXW', 'SigmaX', 'SigmaXYZ', 'sigmaXY',
+               'SigmaYX', 'SigmaZY', 'SigmaTT', 'GammaXGamma5 ', ' GammaX', 'GammaX ', 'GammaTGamma5X', 'Gamma5Gamma5', 'GammaGammaX', 'Sigma', 'Gamma', 'SigmaXy', 'Sigmaxy', 'Identity ']
     notraise = []
     for tag in unknown:
         try:
